@@ -1,6 +1,6 @@
 #!/bin/bash
 # Build the harness from a private copy in which files still owned by builder agents are replaced by their committed version.
-AGENT_FILES="${AGENT_FILES:-c34 c35 c37 c15 c16 c17 c18 c19 c20}"
+AGENT_FILES="${AGENT_FILES:-c15 c16 c17 c18 c19 c20}"
 mkdir -p /verif/scratch/hw
 rsync -a --delete --exclude target /verif/harness/ /verif/scratch/hw/
 for f in $AGENT_FILES; do git -C /verif show HEAD:harness/src/props/$f.rs > /verif/scratch/hw/src/props/$f.rs; done
